@@ -171,6 +171,44 @@ def drain_loops(stmts):
     return out
 
 
+def recursive_program(rnd):
+    """A terminating recursive program: a function that calls ITSELF (in tail position `return rec(...)`, inside a larger return
+    expression, or through a local), with a local that is assigned only on SOME paths - every call starts with a fresh local scope in
+    which only its parameters are bound, so an unassigned local reads as the global of that name (or null); also mutual recursion."""
+    N, S, V, C, B = gen_prog.N, gen_prog.S, gen_prog.V, gen_prog.C, gen_prog.B
+    loc = rnd.choice(['bonus', 'va', 'keep'])
+    cond = rnd.choice([B('==', B('%', V('n'), N(2)), N(1)), B('>', V('n'), N(rnd.randint(1, 3))), B('==', V('n'), N(rnd.randint(0, 4)))])
+    body = [['if', [[cond, [['assign', loc, B('+', V('n'), N(rnd.randint(1, 9)))]]]], None],
+            gen_prog.LOG('r', V('n'), V(loc), V('acc'))]
+    if rnd.random() < 0.3:
+        body.insert(0, ['assign', 'seen', B('+', C('if', B('==', V('seen'), {'variable': 'null'}), N(0), V('seen')), N(1))])
+        body.insert(1, gen_prog.LOG('s', V('seen')))
+    body.append(['if', [[B('<=', V('n'), N(0)), [['return', rnd.choice([V('acc'), B('+', V('acc'), C('if', B('==', V(loc), {'variable': 'null'}), N(0), V(loc)))])]]]], None])
+    step = B('+', V('acc'), C('if', B('==', V(loc), {'variable': 'null'}), N(1), V(loc)))
+    call = C('rec', B('-', V('n'), N(1)), step)
+    style = rnd.choice(['tail', 'tail', 'tail', 'plus', 'local', 'branches'])
+    if style == 'tail':
+        body.append(['return', call])
+    elif style == 'plus':
+        body.append(['return', B('+', call, N(1))])
+    elif style == 'local':
+        body += [['assign', 'tmp', call], gen_prog.LOG('back', V('n'), V(loc)), ['return', V('tmp')]]
+    else:
+        body.append(['if', [[B('==', B('%', V('n'), N(3)), N(0)), [['return', call]]]], [['assign', 'extra', N(7)], ['return', C('rec', B('-', V('n'), N(1)), B('+', V('acc'), C('if', B('==', V('extra'), {'variable': 'null'}), N(0), V('extra'))))]]])
+    prog = [['func', 'rec', ['n', 'acc'], False, body]]
+    if rnd.random() < 0.6:
+        prog.append(['assign', loc, N(100)])
+    if rnd.random() < 0.3:
+        # mutual recursion: each call of either function has its own locals
+        prog.append(['func', 'ping', ['n'], False, [['if', [[B('==', B('%', V('n'), N(2)), N(0)), [['assign', 'mark', S('even')]]]], None], gen_prog.LOG('ping', V('n'), V('mark')),
+                                                     ['if', [[B('<=', V('n'), N(0)), [['return', N(0)]]]], None], ['return', C('pong', B('-', V('n'), N(1)))]]])
+        prog.append(['func', 'pong', ['n'], False, [gen_prog.LOG('pong', V('n'), V('mark')), ['if', [[B('<=', V('n'), N(0)), [['return', N(1)]]]], None], ['return', C('ping', B('-', V('n'), N(1)))]]])
+        prog.append(gen_prog.LOG('pp', C('ping', N(rnd.randint(1, 6)))))
+    prog.append(gen_prog.LOG('top', C('rec', N(rnd.randint(1, 7)), N(0))))
+    prog.append(gen_prog.LOG('again', C('rec', N(rnd.randint(0, 3)), N(rnd.randint(0, 5))), V(loc), V('seen')))
+    return prog
+
+
 def run_shard(spec, acc):
     lib = _lib()
     con = _contracts()
@@ -196,6 +234,10 @@ def run_shard(spec, acc):
         base = spec['seed'] * 1000003 + spec['shard'] * 7919
         for i in range(spec['n']):
             rnd = random.Random(base + i)
+            if i % 16 == 5:
+                run_case(recursive_program(rnd), {}, None, acc, con, lib, respell=(base + i) if rnd.random() < 0.2 else None, debug=rnd.random() < 0.15)
+                acc.count('recursive_programs')
+                continue
             gen = gen_prog.ProgGen(rnd, maxdepth=rnd.choice([2, 3, 4, 5]))
             gen.late_defs = True
             gen.expr_stmts = True
